@@ -341,7 +341,8 @@ class bpch2(bpch_base):
         for k, v in [('tau0', tmpvar._tau0),
                      ('time', tmpvar._tau0),
                      ('tau1', tmpvar._tau1)]:
-            tvar = self.createVariable(k, 'i', ('time',))
+            # the block headers hold the hours as float64 (half-hour blocks)
+            tvar = self.createVariable(k, 'd', ('time',))
             tvar.units = 'hours since 1985-01-01 00:00:00 UTC'
             tvar[:] = v[:]
 
